@@ -19,7 +19,7 @@ def validate_everything(b, tag):
 def corner_cases(tier):
     def fn(b, sym):
         case = sym.choose("case", ["empty-root", "only-empty-dirs", "sf-below-nested", "sf-folder-empty", "exit-10", "exit-11", "new-files",
-                                   "n-flag", "renames", "flatten", "flatten-failed", "creator", "formats", "nested-n", "sf-then-folder", "special-names", "format-history-order"])
+                                   "n-flag", "renames", "flatten", "flatten-failed", "creator", "formats", "nested-n", "sf-then-folder", "special-names", "format-history-order", "sf-overlapping"])
         b.note(case)
         if case == "empty-root":
             b.mkdir("R")
@@ -105,6 +105,15 @@ def corner_cases(tier):
             b.mkfile("R/A/a.txt", 2)
             r = b.run("create", root="R/A", h=["md5"], n=sym.flag("child_n"))
             r = b.run("create", root="R", h=["c4"], n=sym.flag("root_n"))
+        elif case == "sf-overlapping":
+            # arguments that reach the same file more than once: given twice, given and inside a given folder, spelled two ways
+            b.mkfile("R/a.txt", 1)
+            b.mkfile("R/d/b.txt", 2)
+            sel = sym.choose("selection", [["R/a.txt", "R/a.txt"], ["R/d", "R/d/b.txt"], ["R/d/b.txt", "R/d"], ["R/d/b.txt", "R/d/../d/b.txt"]])
+            if sym.flag("prior_generation"):
+                r = b.run("create", root="R", h=["md5"])
+            r = b.run("create", root="R", h=sym.choose("fmts", [["xxh64"], ["md5", "c4"]]), sf=sel)
+            b.require(r.exit == 0 and r.exc is None, "no-internal-error", "create -sf %s: %s" % (sel, r))
         elif case == "sf-then-folder":
             b.mkfile("R/a.txt", 1)
             b.mkfile("R/d/b.txt", 2)
